@@ -65,6 +65,20 @@ CLAIMED = {
         "design_ref": "DESIGN.md §5 C16",
         "note": COMMON_NOTE + "Page sizes that are not a multiple of 8 are an open known finding (D14: misaligned reference, debug abort) and are probed separately; mmap_populate/direct_writes only change OS flags.",
     },
+    "C12": {
+        "category": "proof",
+        "technique": "Lean 4 theorems on header choice and checksum (FNV-1a step bijection => any single damaged hashed byte is detected; choice is one of the two slots; fallback; previous snapshot intact) + exhaustive-by-offset damaged-image correspondence against the real open",
+        "text": "Proved (Jamm/Props/C12.lean): a slot is trusted only with META type byte and verifying checksum; the chosen header is always exactly one of the two slots (never a mix); with one slot invalid the other is chosen, with both valid the higher transaction id; the checksum covers every meaningful field in the regenerated order; changing exactly one byte of the hashed image always changes the checksum (each FNV-1a step is a bijection of UInt64, explicit inverse of the prime) so one damaged hashed byte or a damaged stored checksum invalidates the record with no collision assumption; after a commit no page of the replaced snapshot is free or written, so the fallback state is complete. Tie: after every commit count 0..n, for either slot, every offset of the record region x several values (thorough: all 255), zeroing, random multi-byte and block overwrites, sampled tail offsets: the damaged image is opened by the real code (probe process) and by the Lean model; both must agree and show the newest commit (older header or unchecked byte damaged) or the previous commit (newest header damaged), complete and passing DB::check.",
+        "design_ref": "DESIGN.md §5 C12, §3.2",
+        "note": COMMON_NOTE + "Multi-byte damage is covered under the no-collision hypothesis, which is evaluated on every generated image (a collision would show as a disagreement). Which file offset belongs to which hashed byte is tied by the per-offset correspondence, not proved.",
+    },
+    "C15": {
+        "category": "proof",
+        "technique": "Lean 4 decided obligations on the layout / checksum order regenerated from the repr(C) structs (equal to the pinned release's) + theorems on format precedence and page-size refusal + golden-file correspondence (files written by the pinned commit, legacy-header rewrites)",
+        "text": "Decided on every run: the layout regenerated from the current source equals the pinned layout (every offset, size, tag), magic/version/hash field orders are the pinned ones. Proved: current format first, legacy only when neither slot is valid, a valid header naming another page size is refused whichever slot holds it. Tie: golden files written by the pinned commit at page sizes 1024/4096/5000/16384 (nested buckets, multi-page values, empty key, non-empty free list), each also with the legacy (SHA3) header record, are (a) opened by the current code and by the Lean reader encoding the pinned layout and compared with the dump recorded when they were written, (b) continued by random transactions checked against the specification started from the golden contents, with DB::check and the Lean file checker after every commit and a reopen, (c) opened with every other page size of a list: refused, bytes unchanged. Every file any other check produces is parsed by the same pinned-layout reader.",
+        "design_ref": "DESIGN.md §5 C15, §3.2",
+        "note": COMMON_NOTE + "Legacy files are synthesised by rewriting the header record of a pinned-release file (no 0.10 binary in the sandbox); SHA3-256 is implemented in the driver (checked against known vectors) and uninterpreted in proofs. 'Refused' is the documented panic.",
+    },
 }
 
 REASON_PENDING = "check not built yet (build in progress, see DESIGN.md section 8)"
